@@ -211,14 +211,23 @@ template<class M> static bool validFactor(M const& L){
 	return true;
 }
 
-static OptBase* make(Config const& c, random::rng_type& rng){
-	if(c.kind == "cma") return new CMA(rng);
-	if(c.kind == "cmsa") return new CMSA(rng);
-	if(c.kind == "ecma") return new ElitistCMA(rng);
-	if(c.kind == "vdcma") return new VDCMA(rng);
-	if(c.kind == "lmcma") return new LMCMA(rng);
-	if(c.kind == "cem") return new CrossEntropyMethod();
-	if(c.kind == "simplex") return new SimplexDownhill();
+// every optimizer object is constructed in storage pre-filled with a byte pattern that differs from run to run: a member
+// that neither the constructor nor init sets has a different (garbage) value in each run, so that reading it shows up as a
+// difference between two runs with the same seed (or as a UBSan report for a bool / enum)
+template<class T> static OptBase* constructIn(unsigned char pattern, random::rng_type& rng){
+	void* mem = ::operator new(sizeof(T)); std::memset(mem, pattern, sizeof(T)); return new(mem) T(rng);
+}
+template<class T> static OptBase* constructIn(unsigned char pattern){
+	void* mem = ::operator new(sizeof(T)); std::memset(mem, pattern, sizeof(T)); return new(mem) T();
+}
+static OptBase* make(Config const& c, random::rng_type& rng, unsigned char pattern){
+	if(c.kind == "cma") return constructIn<CMA>(pattern, rng);
+	if(c.kind == "cmsa") return constructIn<CMSA>(pattern, rng);
+	if(c.kind == "ecma") return constructIn<ElitistCMA>(pattern, rng);
+	if(c.kind == "vdcma") return constructIn<VDCMA>(pattern, rng);
+	if(c.kind == "lmcma") return constructIn<LMCMA>(pattern, rng);
+	if(c.kind == "cem") return constructIn<CrossEntropyMethod>(pattern);
+	if(c.kind == "simplex") return constructIn<SimplexDownhill>(pattern);
 	throw std::runtime_error("unknown optimizer " + c.kind);
 }
 
@@ -228,7 +237,7 @@ struct Holder{
 	random::rng_type rng;
 	std::unique_ptr<OptBase> o;
 	bool priv;
-	explicit Holder(Config const& c): rng(12345u), priv(c.priv()){ o.reset(make(c, priv ? rng : random::globalRng)); }
+	explicit Holder(Config const& c, unsigned char pattern = 0): rng(12345u), priv(c.priv()){ o.reset(make(c, priv ? rng : random::globalRng, pattern)); }
 	Holder(Holder const&) = delete;
 	Holder& operator=(Holder const&) = delete;
 };
@@ -711,7 +720,7 @@ int main(){
 				if(t.size() != 4 + f->n) throw std::runtime_error("bad-op");
 				RealVector x0(f->n);
 				for(std::size_t k = 0; k != f->n; ++k) x0(k) = bits2d(t[4+k]);
-				Holder h1(cfg), h2(cfg), h4(cfg);
+				Holder h1(cfg, 0x00), h2(cfg, 0xFF), h4(cfg, 0xA5);
 				Trace a = runOnce(cfg, h1, *f, 0, seed, 1, steps, x0);
 				Trace b = runOnce(cfg, h2, *f, 0, seed, 2, steps, x0);
 				Trace r = runOnce(cfg, h1, *f, 0, seed, 3, steps, x0);    // the object used for run a, initialised again
@@ -729,7 +738,7 @@ int main(){
 				for(int phi = 1; phi <= 4; ++phi){
 					// ElitistCMA with a feasibility box ranks by f + penalty, which is not order-equivalent to phi(f) + penalty
 					if(cfg.kind == "ecma" && f->soft) break;
-					Holder h3(cfg);
+					Holder h3(cfg, (unsigned char)(0x5A + 0x11 * phi));
 					Trace c = runOnce(cfg, h3, *f, phi, seed, 4 + phi, steps, x0);
 					bool same = c.pts.size() == a.pts.size();
 					// 2^340 v is exact as long as it does not overflow
